@@ -14,7 +14,7 @@ PROPERTY = "C14"
 LEVEL = "exploration"
 RULE = ("exhaustive strings over reduced byte alphabets (len<=5 over {00,01,7f,80,ff}; len<=3 over 17 symbols) "
         "x 5 seeds; every length 0..64 (thorough 0..300) x random content x fixed+random seeds; all-0xff strings; "
-        "non-Latin-1 strings for range/determinism only. Non-trivial = length>=1; distinct by (string, seed).")
+        "non-Latin-1 strings (short and up to 400 characters, lone surrogates included) for range/determinism/release stability. Non-trivial = length>=1; distinct by (string, seed).")
 ASSUMPTIONS = [
     "the independent Python reference, the C transcription (ASan+UBSan) and 17 published vectors agree with one another (checked each run)",
     "strings of code points 0..255 are identified with bytes via latin-1",
@@ -161,8 +161,21 @@ def shard(tier, seed, idx, n):
                 res.violation("c-reference-mismatch", "C ref %#x vs %#x" % (g, r1), (b.decode("latin-1"), sd))
     # non-Latin-1: range + determinism
     rng = random.Random(seed + 99 + idx)
-    for _ in range(300 if tier == "quick" else 3000):
-        s = "".join(chr(rng.choice((0x100, 0x263A, 0x1F600, 0x41, 0xFF, 0xFFFF))) for _ in range(rng.randrange(1, 20)))
+    for it in range(400 if tier == "quick" else 4000):
+        alpha = (0x100, 0x263A, 0x1F600, 0x41, 0xFF, 0xFFFF)
+        if it % 4 == 1:
+            alpha = alpha + (0xD800, 0xDBFF, 0xDC00, 0xDFFF)        # lone surrogates (os.fsdecode, json.loads("\\ud83d"))
+        if it % 4 == 2:
+            # long strings (every block count up to ~100), mostly ASCII with a few characters above U+00FF
+            n_ = rng.randrange(20, 400)
+            s = "".join(chr(rng.randrange(0x21, 0x7F)) for _ in range(n_))
+            for _k in range(rng.randrange(1, 4)):
+                p_ = rng.randrange(n_)
+                s = s[:p_] + chr(rng.choice(alpha[:3] + (0xD83D,))) + s[p_ + 1:]
+        elif it % 4 == 3:
+            s = "".join(chr(rng.choice(alpha)) for _ in range(rng.randrange(100, 300)))
+        else:
+            s = "".join(chr(rng.choice(alpha)) for _ in range(rng.randrange(1, 20)))
         sd = rng.choice(SEEDS)
         try:
             a = fn(s, sd)
@@ -180,6 +193,7 @@ def shard(tier, seed, idx, n):
             res.violation("nonlatin1-value-changed-between-releases",
                           "murmur3_32(%r, %#x) = %#x; the pinned release computes %#x (placement of such keys would move)"
                           % (s, sd, a, refs.murmur3_mod256(s, sd)), (s, sd))
+        res.maximum("max_nonlatin1_length", len(s))
         res.case(("nl", s, sd))
     # the name bound in rendezvous.py is really monitored
     before = res.counters["contract_evaluations"]
